@@ -98,6 +98,8 @@ fn content_strategy(tier: Tier) -> BoxedStrategy<Vec<u8>> {
         b"--- a.orig", b"+++ a", b"@@ -1 +1 @@", b"$NetBSD", b"# ends with $NetBSD", b"$NetBS$NetBSD", b"NetBSD$", b"\xff$NetBSD\xfe",
         // the marker in another letter case is not the marker
         b"$NETBSD$", b"$netbsd: x $", b"+CPPFLAGS+= -I$NETBSDSRCDIR/sys", b"$NetBsD", b"$nETbsd",
+        // DOS line ends, lone CR
+        b"dos line\r", b"\r", b"$NetBSD$\r", b"a\rb",
     ]);
     prop_oneof![
         1 => Just(vec![]),
@@ -116,7 +118,16 @@ fn content_strategy(tier: Tier) -> BoxedStrategy<Vec<u8>> {
             v
         }),
         // a marker line at an arbitrary offset (any internal buffer size has an edge somewhere)
-        2 => (0usize..max.min(9000), prop::sample::select(vec![&b"$NetBSD$"[..], b"x $NetBSD: y $", b"$NetBSD", b"$NetBS"]), 1usize..80).prop_map(|(at, marker, w)| {
+        3 => (
+            // half of the offsets lie just below a multiple of a power of two (buffer sizes)
+            prop_oneof![
+                1 => 0usize..max.min(9000),
+                1 => (1usize..=16, prop::sample::select(vec![256usize, 512, 1024, 2048, 4096, 8192]), 0usize..12).prop_map(move |(k, u, d)| (k * u).saturating_sub(d) % max.min(17000)),
+            ],
+            prop::sample::select(vec![&b"$NetBSD$"[..], b"x $NetBSD: y $", b"$NetBSD", b"$NetBS"]),
+            1usize..80,
+        )
+            .prop_map(|(at, marker, w)| {
             let mut v = vec![];
             while v.len() + w + 1 < at {
                 v.extend(std::iter::repeat(b'f').take(w));
@@ -649,7 +660,7 @@ pub fn property() -> Property {
             "patch files are recorded under their file name only; recorded names classify unambiguously",
             "the file system accepts non-UTF-8 file names (Linux)",
         ],
-        streams: vec![random_stream("files", "file on disk x recorded entries x all six algorithms", case_strategy, |t| t.pick(6_000, 150_000), check)],
+        streams: vec![random_stream("files", "file on disk x recorded entries x all six algorithms", case_strategy, |t| t.pick(8_000, 150_000), check)],
         selfcheck: || {
             md::selfcheck()?;
             mh::selfcheck()
